@@ -206,6 +206,8 @@ def fault_doc(tok_id, placement):
         return place(_SPAN_BODY % 'FAULTSPAN', placement)
     if tok_id == 'RenderFaultSpan':
         return place(_SPAN_BODY % 'RENDERFAULT', placement)
+    if tok_id == 'RenderAbortSpan':
+        return place(_SPAN_BODY % 'RENDERABORT', placement)
     if tok_id == 'RenderFaultBlock':
         if placement in ('heading', 'table', 'after_para'):
             placement = 'top'
